@@ -107,3 +107,36 @@ contract(_S + "check_dpath",
          note="one search-path entry: the package directory (with __init__.py and an unbroken __init__ chain) wins; otherwise the first "
               "candidate file name, in order, that is a file with an unbroken chain; otherwise nothing",
          sentinel=("files-before-packages", "implies(S.fs_isfile(S.path_join(dpath, candidate_fnames[0])), result == S.path_join(dpath, candidate_fnames[0]))"))
+
+
+# ------------------------------------------------------------------------ C17: the search-path loop (first entry that matches wins)
+def _at(txt, d):
+    return txt.replace('dpath', d)
+
+
+_NOMATCH = "(not " + _ISPKG + " and all(not " + _OKJ + " for j in range(0, len(candidate_fnames))))"
+contract("xdoctest.utils.util_import:_syspath_modname_to_modpath#search",
+         params={"candidate_dpaths": "list[str]", "_fname_we": "str", "candidate_fnames": "list[str]", "_pkg_name": "str"},
+         returns="Optional[str]",
+         requires=[("file-names-are-not-empty", "all(len(c) > 0 for c in candidate_fnames) and len(_fname_we) > 0")],
+         ensures=[("nothing-found-means-no-entry-matches",
+                   "implies(result is None, all(" + _at(_NOMATCH, "candidate_dpaths[i]") + " for i in range(0, len(candidate_dpaths))))")],
+         loops={2: LoopSpec(header="candidate_dpaths",
+                            invariants=[("nothing-found-yet", "found_modpath is None"),
+                                        ("earlier-entries-do-not-match",
+                                         "all(" + _at(_NOMATCH, "candidate_dpaths[i]") + " for i in range(0, _i2))")],
+                            exit_post=[("found-is-the-match-of-the-first-entry-that-has-one",
+                                        "(found_modpath is None and all(" + _at(_NOMATCH, "candidate_dpaths[i]") + " for i in range(0, len(candidate_dpaths)))) or "
+                                        "(found_modpath is not None and exists(lambda m: 0 <= m and m < len(candidate_dpaths) and "
+                                        "all(" + _at(_NOMATCH, "candidate_dpaths[i]") + " for i in range(0, m)) and not "
+                                        + _at(_NOMATCH, "candidate_dpaths[m]") + "))")])},
+         props=["C17"],
+         opts={"native": False,
+               "region": {"from": "found_modpath = None",
+                          "drop": ["new_editable_finder_paths = ", "if new_editable_finder_paths:", "new_editable_pth_paths = ",
+                                   "if new_editable_pth_paths:", "linkpath1 = ", "linkpath2 = ", "linkpath = None",
+                                   "if isfile(linkpath1):", "if linkpath is not None:"]}},
+         note="region: the search loop, for search paths WITHOUT editable-install finders / __editable__ .pth files / egg-links (those "
+              "fallbacks are dropped and named here): the entries are tried in order and the first one for which check_dpath finds a "
+              "match decides; None exactly when no entry has a match",
+         sentinel=("last-entry-wins", "True == False"))
